@@ -28,6 +28,43 @@ pub fn golden(cfg: &Cfg, shard: usize, ctx: &mut Ctx, visit: Visit) -> Result<()
     Ok(())
 }
 
+/// `visit` on positions asked one right after the other (each a start position of its own).
+/// Everything the checks observe is a pure function of the position, so what was asked before must
+/// not matter; on failure the case names the whole sequence (`replay_hist` runs it again).
+pub fn in_turn(ctx: &mut Ctx, seq: &[Pos], visit: Visit) -> Result<(), Violation> {
+    let fens: Vec<String> = seq.iter().map(|p| p.fen()).collect();
+    for p in seq {
+        visit_position(ctx, p, visit).map_err(|mut v| {
+            if v.case.get("asked_in_turn").is_none() {
+                v.case = serde_json::json!({"asked_in_turn": fens, "failing": v.case});
+            }
+            v
+        })?;
+    }
+    Ok(())
+}
+
+/// One visited position in `one_in`: the other valid positions with the same men on the same
+/// squares (other side to move, castling rights dropped, en-passant state dropped) are visited in
+/// turn with it - sibling, position, sibling, position ...
+pub fn with_siblings(ctx: &mut Ctx, s: &Step, one_in: u64, visit: Visit) -> Result<(), Violation> {
+    if crate::engine::fp(&(s.pos, "placement-siblings")) % one_in != 0 {
+        return Ok(());
+    }
+    let sibs = gen::placement_siblings(s.pos);
+    if sibs.is_empty() {
+        return Ok(());
+    }
+    let mut seq: Vec<Pos> = vec![];
+    for q in sibs {
+        seq.push(q);
+        seq.push(s.pos.clone());
+    }
+    ctx.class("position:visited-in-turn-with-its-placement-siblings");
+    ctx.count("positions_visited_as_siblings", seq.len() as u64);
+    in_turn(ctx, &seq, visit)
+}
+
 /// Generated histories (G-play over curated and directly set-up starts), with shrinking.
 pub fn histories(
     ctx: &mut Ctx,
@@ -59,7 +96,12 @@ pub fn histories(
             policy = allowed[raw.policy as usize % allowed.len()];
         }
         let mut src = MoveSource::Tape { policy, tape: Tape::new(&raw.choices) };
-        let plies = gen::walk(ctx, &start, &mut src, max_plies, visit)?;
+        // one position in sixteen is also visited in turn with its placement siblings
+        let both = |ctx: &mut Ctx, s: &Step| -> Result<(), Violation> {
+            visit(ctx, s)?;
+            with_siblings(ctx, s, 16, visit)
+        };
+        let plies = gen::walk(ctx, &start, &mut src, max_plies, &both)?;
         ctx.count("plies_played", plies as u64);
         Ok(())
     })
@@ -71,6 +113,10 @@ pub fn replay_hist(
     case: &serde_json::Value,
     visit: Visit,
 ) -> Result<(), Violation> {
+    if let Some(list) = case.get("asked_in_turn").and_then(|x| x.as_array()) {
+        let seq: Vec<Pos> = list.iter().filter_map(|f| f.as_str().and_then(|t| Pos::from_fen(t).ok())).collect();
+        return in_turn(ctx, &seq, visit);
+    }
     let (start, moves) = gen::parse_hist_case(case).map_err(|e| ctx.violation("INFRA", e, serde_json::Value::Null))?;
     let mut src = MoveSource::Explicit { moves: &moves, i: 0 };
     gen::walk(ctx, &start, &mut src, moves.len(), visit).map(|_| ())
